@@ -2,6 +2,6 @@ SPECIFICATION Spec
 INVARIANT DialAuth
 CHECK_DEADLOCK FALSE
 CONSTANTS
-  Keys = {"k1", "k2", "k3"}
+  Keys = {"k1", "k2"}
   HeldMode = "few"
   MaxInter = 0
